@@ -47,7 +47,7 @@ class Contract:
                  raises=None, may_raise=(), defines=None, loops=None, ghosts=(), locals=None,
                  ghost_init=None, trusted=False, inline=False, note="", props=(),
                  ghost_params=None, result_name="result", lemmas=(), pure=True,
-                 must_raise=None, logs=None, map_keys=None):
+                 must_raise=None, logs=None, map_keys=None, raise_allowed=None):
         self.key = key
         self.inst = inst
         self.params = OrderedDict(params)
@@ -60,6 +60,8 @@ class Contract:
         self.may_raise = list(may_raise)
         # must_raise: conditions under which the call does not return normally (one-sided)
         self.must_raise = list(must_raise or [])
+        # raise_allowed: exc name -> condition: 'raises E  ==>  cond' (one-sided)
+        self.raise_allowed = OrderedDict(raise_allowed or {})
         self.defines = defines
         self.loops = dict(loops or {})
         self.ghosts = list(ghosts)
